@@ -2677,10 +2677,13 @@ impl Compiler {
             mutable: true, // Enums are mutable like objects
         });
 
-        // Track the current numeric value for auto-increment
-        let mut current_value: i64 = 0;
+        // Auto-increment continues from the previous member's value, whatever
+        // expression produced it (negative, fractional or computed from earlier
+        // members), so it is computed at run time: value = previous + 1
         let value_reg = self.builder.alloc_register()?;
         let key_reg = self.builder.alloc_register()?;
+        let one_reg = self.builder.alloc_register()?;
+        let mut has_previous = false;
 
         // Track prior member names for rewriting identifier references
         let mut prior_members: Vec<JsString> = Vec::new();
@@ -2692,22 +2695,24 @@ impl Compiler {
             if let Some(ref init) = member.initializer {
                 // Compile the initializer expression, rewriting references to prior enum members
                 self.compile_enum_init_expression(init, value_reg, enum_obj, &prior_members)?;
-
-                // Try to compute the numeric value for auto-increment
-                // This is a simplified version - in reality, we'd need const evaluation
-                if let crate::ast::Expression::Literal(lit) = init
-                    && let crate::ast::LiteralValue::Number(n) = &lit.value
-                {
-                    current_value = *n as i64 + 1;
-                }
+            } else if has_previous {
+                // value_reg still holds the previous member's value
+                self.builder.emit(Op::LoadInt {
+                    dst: one_reg,
+                    value: 1,
+                });
+                self.builder.emit(Op::Add {
+                    dst: value_reg,
+                    left: value_reg,
+                    right: one_reg,
+                });
             } else {
-                // Use auto-increment value
                 self.builder.emit(Op::LoadInt {
                     dst: value_reg,
-                    value: current_value as i32,
+                    value: 0,
                 });
-                current_value += 1;
             }
+            has_previous = true;
 
             // Add this member to prior members for subsequent initializers
             prior_members.push(member_name.cheap_clone());
@@ -2755,6 +2760,7 @@ impl Compiler {
             }
         }
 
+        self.builder.free_register(one_reg);
         self.builder.free_register(key_reg);
         self.builder.free_register(value_reg);
         self.builder.free_register(enum_obj);
